@@ -10,6 +10,7 @@ then feeds the wire form to REAL Saml2Clients holding different decryption keys.
 
 Coq evaluates model = implementation (wire term and every recipient's result) and the property on the observed data.
 """
+import ast
 import base64
 import copy
 import itertools
@@ -37,7 +38,14 @@ RULE = ("complete product sign_response x sign_assertion x encrypt_assertion x e
         "with a hand-built Advice of 1 or 2 assertions x the same 64 flag combinations x 1-2 certificate sources, and 32 "
         "seeded flag combinations each for: no certificate, advice assertion without Issuer, empty Advice (thorough: "
         "5 advice shapes x 22 certificate sources x 64); seeded random widening of both entries (advice of 0-3); identities are random marker values (1-4 attributes, 1-2 "
-        "values).  Every wire form is given to 5 recipients: configured key {sp}; two key pairs, either both configured "
+        "values); OPTION SOURCES through the public API: each of sign_response / sign_assertion / encrypt_assertion / "
+        "encrypted_advice_attributes / encrypt_assertion_self_contained passed as True / False / None or not passed x "
+        "absent from / True / False / \"true\" / \"false\" in the IdP configuration (20 states per option): "
+        "encrypt_assertion completely x pefim with the other options seeded random (thorough: every option completely x "
+        "4 certificate sources), Server.create_authn_request_response (sign flags by argument, encryption only through "
+        "the configuration) x 5 configuration states, seeded random widening of all five options x certificate source x "
+        "pefim x API; the spec is evaluated on what the call REQUESTS (argument, else configuration, else documented "
+        "default: Spec.requested), the model on what the code gathers (Model.gather).  Every wire form is given to 5 recipients: configured key {sp}; two key pairs, either both configured "
         "(rotation, either order) or one configured and one supplied per request through outstanding_certs (filed under "
         "the Response's InResponseTo or under another id); a wrong key or no key; the matching keys (configured / split "
         "configured + per-request) with a damaged ciphertext (bit flip in the encrypted key / first ciphertext byte / "
@@ -55,7 +63,11 @@ TRUSTED = ["xmlsec1 stand-in (harness/standin/xmlsec1.py: real RSA-OAEP + 3DES/A
            "response.py:AuthnResponse.find_encrypt_data_assertion, response.py:AuthnResponse.find_encrypt_data, "
            "response.py:AuthnResponse.decrypt_assertions, response.py:AuthnResponse._assertion, "
            "sigver.py:pre_encrypt_assertion, sigver.py:CryptoBackendXmlSec1.encrypt_assertion (coq/gen/C16Src2.v; "
-           "theorems c16_source2_*); the translation specs of harness/c16.py:source2_items: external calls as extra "
+           "theorems c16_source2_*); harness/c16.py:option_tables (AST of saml2/server.py -> coq/gen/C16Tables.v: signature "
+           "defaults of create_authn_response, param_defaults / precedence chain / configuration context of "
+           "gather_authn_response_args, options forwarded by create_authn_request_response; theorem "
+           "c16_option_defaults_from_source); the reading of \"requested\" for options left to the configuration "
+           "(Spec.requested, harness/c16.py:asked: argument, else IdP configuration, else documented default); the translation specs of harness/c16.py:source2_items: external calls as extra "
            "arguments, itertools.chain(a, b) read as list(a) + list(b), the effect of "
            "assertion.advice.assertion.append / encrypted_assertion.add_extension_element(s) on their receiver is "
            "external (two-level attribute path), exception class parents EXC_PARENTS"]
@@ -269,13 +281,156 @@ SOURCE2_FUNCTIONS = ["entity.py:Entity.has_encrypt_cert_in_metadata", "server.py
                      "sigver.py:CryptoBackendXmlSec1.encrypt_assertion"]
 
 
+# the five boolean options of create_authn_response that have a configuration fallback (order of Model.srcs)
+OPTIONS = ["sign_response", "sign_assertion", "encrypt_assertion", "encrypted_advice_attributes",
+           "encrypt_assertion_self_contained"]
+OPT_SHORT = dict(zip(OPTIONS, ["sr", "sa", "ea", "eadv", "sc"]))
+DOC_DEFAULT = {"sr": False, "sa": False, "ea": False, "eadv": False, "sc": True}   # docs/howto/config.rst
+
+
+def _method(tree, cls, name):
+    for node in tree.body:
+        if isinstance(node, ast.ClassDef) and node.name == cls:
+            for st in node.body:
+                if isinstance(st, ast.FunctionDef) and st.name == name:
+                    return st
+    raise RuntimeError("%s.%s not found" % (cls, name))
+
+
+def _sig_defaults(fn):
+    """parameter name -> default expression (positional-or-keyword and keyword-only parameters)"""
+    a = fn.args
+    pos = a.posonlyargs + a.args
+    out = dict(zip([p.arg for p in pos[len(pos) - len(a.defaults):]], a.defaults))
+    out.update({p.arg: d for p, d in zip(a.kwonlyargs, a.kw_defaults) if d is not None})
+    return out
+
+
+def _precedence(expr, names):
+    """`a if a is not None else b if b is not None else c` -> [a, b, c] (anything else: fail closed)"""
+    out = []
+    while isinstance(expr, ast.IfExp):
+        t = expr.test
+        ok = (isinstance(t, ast.Compare) and len(t.ops) == 1 and isinstance(t.ops[0], ast.IsNot)
+              and isinstance(t.left, ast.Name) and isinstance(t.comparators[0], ast.Constant)
+              and t.comparators[0].value is None and isinstance(expr.body, ast.Name) and expr.body.id == t.left.id)
+        if not ok:
+            raise RuntimeError("gather_authn_response_args: precedence expression has an unexpected shape")
+        out.append(expr.body.id)
+        expr = expr.orelse
+    if not isinstance(expr, ast.Name):
+        raise RuntimeError("gather_authn_response_args: precedence expression has an unexpected tail")
+    out.append(expr.id)
+    try:
+        return [names[n] for n in out]
+    except KeyError as e:
+        raise RuntimeError("gather_authn_response_args: unknown name %s in the precedence expression" % e)
+
+
+def option_tables():
+    """From the LIVE text of saml2/server.py (AST, fail closed): the defaults of the five options in the signature of
+    Server.create_authn_response, their entries in param_defaults of gather_authn_response_args, the precedence
+    (keyword, configuration, default) with the context the configuration is read in, which of the options
+    create_authn_request_response forwards, and how create_authn_response hands them to gather_authn_response_args."""
+    with open(os.path.join(env.SRC, "saml2", "server.py")) as f:
+        tree = ast.parse(f.read())
+    car = _method(tree, "Server", "create_authn_response")
+    sig = _sig_defaults(car)
+    sig_defaults = {}
+    for o in OPTIONS:
+        d = sig.get(o)
+        if not isinstance(d, ast.Constant) or not (d.value is None or isinstance(d.value, bool)):
+            raise RuntimeError("create_authn_response: default of %s is not None/True/False" % o)
+        sig_defaults[o] = d.value
+    # create_authn_response -> gather_authn_response_args: every option handed on under its own name
+    handed = None
+    for node in ast.walk(car):
+        if isinstance(node, ast.Call) and isinstance(node.func, ast.Attribute) and node.func.attr == "gather_authn_response_args":
+            handed = {k.arg: k.value for k in node.keywords if k.arg}
+    if handed is None:
+        raise RuntimeError("create_authn_response: call of gather_authn_response_args not found")
+    for o in OPTIONS:
+        v = handed.get(o)
+        if not (isinstance(v, ast.Name) and v.id == o):
+            raise RuntimeError("create_authn_response: %s is not handed to gather_authn_response_args as it came" % o)
+    gat = _method(tree, "Server", "gather_authn_response_args")
+    param_defaults, prec, ctxs = None, None, []
+    for node in ast.walk(gat):
+        if isinstance(node, ast.Assign) and len(node.targets) == 1:
+            tg = node.targets[0]
+            if isinstance(tg, ast.Name) and tg.id == "param_defaults":
+                param_defaults = ast.literal_eval(node.value)
+            elif isinstance(tg, ast.Name) and tg.id == "val_config":
+                c = node.value
+                if (isinstance(c, ast.Call) and isinstance(c.func, ast.Attribute) and c.func.attr == "getattr"
+                        and len(c.args) == 2 and isinstance(c.args[0], ast.Name) and c.args[0].id == "param"
+                        and isinstance(c.args[1], ast.Constant)):
+                    ctxs.append(c.args[1].value)
+                else:
+                    raise RuntimeError("gather_authn_response_args: val_config is not self.config.getattr(param, <context>)")
+            elif isinstance(tg, ast.Subscript) and isinstance(tg.value, ast.Name) and tg.value.id == "args" \
+                    and isinstance(tg.slice, ast.Name) and tg.slice.id == "param" and prec is None \
+                    and not isinstance(node.value, ast.Subscript):      # (args[param] = kwargs[param]: status / farg)
+                prec = _precedence(node.value, {"val_kw": "kw", "val_config": "config", "val_default": "default"})
+    if not isinstance(param_defaults, dict) or prec is None or len(ctxs) != 1:
+        raise RuntimeError("gather_authn_response_args: param_defaults / precedence / val_config not found")
+    for o in OPTIONS:
+        if not isinstance(param_defaults.get(o), bool):
+            raise RuntimeError("gather_authn_response_args: param_defaults[%s] missing or not a bool" % o)
+    # the wrapper: which of the options (and pefim / certificates) does it pass on
+    wrp = _method(tree, "Server", "create_authn_request_response")
+    call = None
+    for node in ast.walk(wrp):
+        if isinstance(node, ast.Call) and isinstance(node.func, ast.Attribute) and node.func.attr == "create_authn_response":
+            call = node
+    if call is None:
+        raise RuntimeError("create_authn_request_response: call of create_authn_response not found")
+    names = [p.arg for p in car.args.args][1:]
+    passed = dict(zip(names, call.args))
+    passed.update({k.arg: k.value for k in call.keywords if k.arg})
+    if any(k.arg is None for k in call.keywords):
+        raise RuntimeError("create_authn_request_response: **kwargs handed on (table out of date)")
+    forwards = []
+    for o in OPTIONS + ["pefim", "encrypt_cert_assertion", "encrypt_cert_advice"]:
+        if o in passed:
+            if not (isinstance(passed[o], ast.Name) and passed[o].id == o):
+                raise RuntimeError("create_authn_request_response: %s is not forwarded as it came" % o)
+            forwards.append(o)
+    return {"sig_defaults": sig_defaults, "param_defaults": {o: param_defaults[o] for o in OPTIONS}, "precedence": prec,
+            "config_context": ctxs[0], "wrapper_forwards": forwards}
+
+
+def write_option_tables():
+    from harness import common
+    t = option_tables()
+    ob = lambda v: "None" if v is None else "(Some %s)" % ("true" if v else "false")  # noqa: E731
+    lines = [
+        "(* GENERATED by harness/c16.py:option_tables from the live text of saml2/server.py (Server.create_authn_response "
+        "signature, gather_authn_response_args, create_authn_request_response) — do not edit *)",
+        "From Coq Require Import String List.", "Import ListNotations.", "Open Scope string_scope.",
+        "Definition create_authn_response_sig_defaults : list (string * option bool) :=\n  [%s]." % "; ".join(
+            "(%s, %s)" % (cq(o), ob(t["sig_defaults"][o])) for o in OPTIONS),
+        "Definition gather_param_defaults : list (string * bool) :=\n  [%s]." % "; ".join(
+            "(%s, %s)" % (cq(o), "true" if t["param_defaults"][o] else "false") for o in OPTIONS),
+        "Definition gather_precedence : list string := [%s]." % "; ".join(cq(p) for p in t["precedence"]),
+        "Definition gather_config_context : string := %s." % cq(t["config_context"]),
+        "Definition wrapper_forwards : list string := [%s]." % "; ".join(cq(p) for p in t["wrapper_forwards"]),
+    ]
+    changed = common.write_if_changed(os.path.join(common.GEN, "C16Tables.v"), "\n".join(lines) + "\n")
+    return t, changed
+
+
 def regenerate_tables(ctx):
     """Translator v2: the functions of source2_items() as they read NOW -> coq/gen/C16Src2.v (fail-closed: a function
-    outside the subset becomes a PErr-valued definition and the theorem about it in C16/Source2.v stops checking)."""
+    outside the subset becomes a PErr-valued definition and the theorem about it in C16/Source2.v stops checking);
+    option_tables() -> coq/gen/C16Tables.v (theorem c16_option_defaults_from_source)."""
     from harness import common, py2coq2
+    tables, tchanged = write_option_tables()
     src2 = py2coq2.regenerate(os.path.join(common.GEN, "C16Src2.v"), source2_items())
-    return {"file": "coq/gen/C16Src2.v", "changed": src2["changed"], "obligations": src2["obligations"],
-            "discharged": src2["discharged"], "untranslatable": list(src2["untranslatable"]), "source2": src2,
+    return {"file": "coq/gen/C16Src2.v", "files": ["coq/gen/C16Src2.v", "coq/gen/C16Tables.v"],
+            "changed": bool(src2["changed"] or tchanged), "obligations": src2["obligations"] + 1,
+            "discharged": src2["discharged"] + 1, "untranslatable": list(src2["untranslatable"]), "source2": src2,
+            "option_tables": tables,
             "functions": SOURCE2_FUNCTIONS,
             "source_theorems": ["c16_source2_* (C16/Property.v, proofs in C16/Source2.v): each translated function applied to "
                                 "the encoded model input equals the encoded output of the model function it mirrors"]}
@@ -317,6 +472,42 @@ def mk_trials(rng):
         t(["sp"], False, False, ck, ["spenc2"]) if rng.random() < 0.5 else t(["sp", "spenc2"], False, False, ck),
         t(rk, pol()[0], pol()[1], rng.choice([None, None, None, ck]), rreq[0], rreq[1]),
     ]
+
+
+ARG_STATES = ["np", "none", True, False]          # not passed / passed as None / passed True / passed False
+CFG_STATES = [(None, False), (True, False), (False, False), (True, True), (False, True)]   # (value, given as "true"/"false")
+
+
+def opt_state(arg, cfg):
+    return {"arg": arg, "cfg": cfg[0], "cfg_str": bool(cfg[1])}
+
+
+def asked(short, st):
+    """What the call requests for one option, from the documentation: the argument, else the IdP configuration, else
+    the documented default (the Coq side computes its own reading: Spec.requested)."""
+    if st["arg"] in (True, False):
+        return st["arg"]
+    return st["cfg"] if st["cfg"] is not None else DOC_DEFAULT[short]
+
+
+def random_opt_state(rng):
+    return opt_state(rng.choice(ARG_STATES + ["np", True]), rng.choice(CFG_STATES + [(None, False), (None, False)]))
+
+
+def mk_opt_case(rng, src, pefim, states, api, tag):
+    """A Server-entry call whose five options come from argument / None / nothing and the IdP configuration.
+    api "request_response" = Server.create_authn_request_response: it takes sign_response / sign_assertion only, the
+    other options can be requested through the configuration alone, no PEFIM, no explicit certificates."""
+    states = {k: dict(v) for k, v in states.items()}
+    if api == "request_response":
+        for k in ("ea", "eadv", "sc"):
+            states[k]["arg"] = "np"
+        pefim, src = False, (src[0], None, None)
+    fl = tuple(asked(k, states[k]) for k in ("sr", "sa", "ea", "eadv", "sc")) + (bool(pefim),)
+    c = mk_case(rng, "server", fl, src, None, tag)
+    c["src"] = states
+    c["api"] = api
+    return c
 
 
 def mk_case(rng, entry, flags, src, leaves_spec, tag):
@@ -363,6 +554,28 @@ def generate(ctx):
         for src in EXTRA_SOURCES:
             for fl in allflags:
                 cases.append(mk_case(rng, "server", fl, src, None, "server-x"))
+    # where the options come from: per-call argument (True / False / None), nothing, IdP configuration (True / False /
+    # "true" / "false"), through create_authn_response and through create_authn_request_response
+    shorts = ["sr", "sa", "ea", "eadv", "sc"]
+    full = [opt_state(a, c) for a in ARG_STATES for c in CFG_STATES]           # 20 states of one option
+    focus = shorts if ctx.thorough else ["ea"]
+    srcs_a = (CERT_SOURCES[0], CERT_SOURCES[7], CERT_SOURCES[1], CERT_SOURCES[9])
+    for opt in focus:
+        for i, st in enumerate(full):
+            for pefim in (False, True):
+                for src in (srcs_a if ctx.thorough else (srcs_a[(i + pefim) % len(srcs_a)],)):
+                    states = {k: random_opt_state(rng) for k in shorts}
+                    states[opt] = st
+                    cases.append(mk_opt_case(rng, src, pefim, states, "response", "opt-" + opt))
+    for cfg in CFG_STATES:                                                      # the wrapper: configuration is the only way
+        for k in range(4 if ctx.thorough else 2):
+            states = {k2: random_opt_state(rng) for k2 in shorts}
+            states["ea"] = opt_state("np", cfg)
+            cases.append(mk_opt_case(rng, srcs_a[k % len(srcs_a)], False, states, "request_response", "opt-wrapper"))
+    for _ in range(1200 if ctx.thorough else 90):
+        states = {k: random_opt_state(rng) for k in shorts}
+        api = "request_response" if rng.random() < 0.25 else "response"
+        cases.append(mk_opt_case(rng, rng.choice(CERT_SOURCES), rng.random() < 0.3, states, api, "opt-rnd"))
     # seeded random widening
     for _ in range(1500 if ctx.thorough else 140):
         src = rng.choice(CERT_SOURCES + EXTRA_SOURCES)
@@ -389,15 +602,33 @@ def key_descriptors(md):
     return "".join(out)
 
 
-def get_idp(md):
+def get_idp(md, cfg=None):
+    """cfg: options of the service/idp section of the IdP configuration (loaded by the real IdPConfig.load)."""
     env.install_standin()
     spaccept.CLOCK.install()
-    k = json.dumps(md)
+    k = json.dumps([md, sorted((cfg or {}).items())])
     idp = _idp_cache.get(k)
     if idp is None:
-        idp = world.make_idp(metadata_xml=[world.sp_descriptor(world.SP_ID, [], extra=key_descriptors(md))])
+        over = {"idp_" + o: v for o, v in (cfg or {}).items()}
+        idp = world.make_idp(metadata_xml=[world.sp_descriptor(world.SP_ID, [], extra=key_descriptors(md))], **over)
+        if len(_idp_cache) > 400:
+            _idp_cache.clear()
         _idp_cache[k] = idp
     return idp
+
+
+def option_args(case):
+    """(keyword arguments, IdP configuration entries) for the five options of a case with option sources"""
+    kw, cfg = {}, {}
+    for o in OPTIONS:
+        st = case["src"][OPT_SHORT[o]]
+        if st["arg"] == "none":
+            kw[o] = None
+        elif st["arg"] != "np":
+            kw[o] = bool(st["arg"])
+        if st["cfg"] is not None:
+            cfg[o] = ("true" if st["cfg"] else "false") if st["cfg_str"] else bool(st["cfg"])
+    return kw, cfg
 
 
 def cert_arg(name):
@@ -412,12 +643,22 @@ def issue(case):
     from saml2.saml import NAMEID_FORMAT_TRANSIENT, NameID
     from saml2.sigver import pre_signature_part
 
-    idp = get_idp(case["md"])
+    kw, cfg = option_args(case) if case.get("src") else ({}, {})
+    idp = get_idp(case["md"], cfg)
     nid = NameID(format=NAMEID_FORMAT_TRANSIENT, text=case["subj"])
     ident = {k: list(v) for k, v in case["identity"]}
     ca, cadv = cert_arg(case["cert_asrt"]), cert_arg(case["cert_adv"])
     try:
-        if case["entry"] == "server":
+        if case["entry"] == "server" and case.get("src") and case.get("api") == "request_response":
+            if case["pefim"] or ca or cadv or any(o in kw for o in OPTIONS[2:]):
+                raise RuntimeError("case outside what create_authn_request_response takes")
+            resp = idp.create_authn_request_response(
+                ident, "req-1", world.SP_ACS_POST, world.SP_ID, name_id=nid, authn=dict(AUTHN), **kw)
+        elif case["entry"] == "server" and case.get("src"):
+            resp = idp.create_authn_response(
+                ident, "req-1", world.SP_ACS_POST, world.SP_ID, name_id=nid, authn=dict(AUTHN),
+                pefim=case["pefim"], encrypt_cert_assertion=ca, encrypt_cert_advice=cadv, **kw)
+        elif case["entry"] == "server":
             resp = idp.create_authn_response(
                 ident, "req-1", world.SP_ACS_POST, world.SP_ID, name_id=nid, authn=dict(AUTHN),
                 sign_response=case["sr"], sign_assertion=case["sa"], encrypt_assertion=case["ea"],
@@ -729,10 +970,16 @@ def coq_case(case, obs):
             cq(list(t["keys"])), cq(bool(t["wr"])), cq(bool(t["wa"])), cq(bool(t["corrupt"])),
             cq(list(t.get("req") or [])), cq(bool(t.get("hit", True))), rid)))
     copt = lambda n: "None" if n is None else "(Some %s)" % cq_cert(n)  # noqa: E731
-    return "C16.Corr.mk %s %s %s %s %s %s %s %s %s %s %s %s %s %s %s %s" % (
+    ss = "None"
+    if case.get("src"):
+        def osrc(st):
+            a = {"np": "NotPassed", "none": "PassedNone", True: "(Passed true)", False: "(Passed false)"}[st["arg"]]
+            return "(osrc %s %s)" % (a, "None" if st["cfg"] is None else "(Some %s)" % cq(bool(st["cfg"])))
+        ss = "(Some (mksrcs %s))" % " ".join(osrc(case["src"][k]) for k in ("sr", "sa", "ea", "eadv", "sc"))
+    return "C16.Corr.mk %s %s %s %s %s %s %s %s %s %s %s %s %s %s %s %s %s" % (
         "Server" if case["entry"] == "server" else "Entity",
         cq(case["sr"]), cq(case["sa"]), cq(case["ea"]), cq(case["eadv"]), cq(case["sc"]), cq(case["pefim"]),
-        cq(md), copt(case["cert_asrt"]), copt(case["cert_adv"]), cq(case["subj"]), cq(attrs), cq(leaves),
+        cq(md), copt(case["cert_asrt"]), copt(case["cert_adv"]), cq(case["subj"]), cq(attrs), cq(leaves), ss,
         cq_wire(obs["wire"]), cq(sorted(obs["exposed"])), cq(trials))
 
 
@@ -741,15 +988,25 @@ def nontrivial(case, obs):
     if not (case["ea"] or case["eadv"] or (case["entry"] == "server" and case["pefim"])):
         return None
     shape = None if case["leaves"] is None else tuple(l["wf"] for l in case["leaves"])
-    return (case["entry"], tuple(case[f] for f in FLAGS), json.dumps(case["md"]), case["cert_asrt"], case["cert_adv"], shape)
+    how = None
+    if case.get("src"):
+        how = (case.get("api"),) + tuple((str(case["src"][k]["arg"]), case["src"][k]["cfg"], case["src"][k]["cfg_str"])
+                                         for k in ("sr", "sa", "ea", "eadv", "sc"))
+    return (case["entry"], tuple(case[f] for f in FLAGS), json.dumps(case["md"]), case["cert_asrt"], case["cert_adv"], shape, how)
 
 
 def histogram(cases, observed):
     h = {"by_tag": {}, "idp_outcome": {}, "wire_shape": {}, "exposure": {"none": 0, "some": 0},
          "trial_outcome": {"identity": 0, "none": 0}, "trial_exceptions": {}, "trial_kinds": {}, "advice_sizes": {},
-         "cert_used": {}}
+         "cert_used": {}, "option_sources": {}, "api": {}}
     for c, o in zip(cases, observed):
         h["by_tag"][c["tag"]] = h["by_tag"].get(c["tag"], 0) + 1
+        if c.get("src"):
+            h["api"][c["api"]] = h["api"].get(c["api"], 0) + 1
+            for kk, st in c["src"].items():
+                cfgs = "-" if st["cfg"] is None else ('"%s"' % str(st["cfg"]).lower() if st["cfg_str"] else str(st["cfg"]))
+                key = "%s: arg=%s cfg=%s" % (kk, {"np": "not passed", "none": "None"}.get(st["arg"], st["arg"]), cfgs)
+                h["option_sources"][key] = h["option_sources"].get(key, 0) + 1
         n = "server" if c["leaves"] is None else str(len(c["leaves"]))
         h["advice_sizes"][n] = h["advice_sizes"].get(n, 0) + 1
         if o["wire"] is None:
